@@ -83,6 +83,9 @@ func (c *Ctx) emit(cs Case) {
 	if len(c.samples) < 5 && len(text) < 600 {
 		c.samples = append(c.samples, text)
 	}
+	for _, n := range e.Notes {
+		c.hit(id, cs, "argument-modified", n)
+	}
 	if cs.Mutate {
 		// whatever the suite: with every shared slice scribbled over, each object
 		// is still observed as at its creation
